@@ -176,6 +176,14 @@ def check_case(case) -> Outcome:
             out.fail("subset-names", f"{s!r}: subset {order}: {list(sub.column_names)} vs {[names[j] for j in exp_idx]}", ordering=ordering)
         elif M2.shape != (fr["n"], len(exp_idx)) or not np.allclose(M2, M[:, exp_idx], rtol=1e-12, atol=1e-12, equal_nan=True):
             out.fail("subset-values", f"{s!r}: subset {order}", ordering=ordering)
+        # the subset carries the recorded levels: on rows that lack some levels it still reproduces the parent's cells
+        rows = sorted({r % fr["n"] for r in pick})[:2]
+        try:
+            M3 = dense(sub.get_model_matrix(df.iloc[rows])).reshape(len(rows), -1)
+            if M3.shape != (len(rows), len(exp_idx)) or not np.allclose(M3, M[rows][:, exp_idx], rtol=1e-9, atol=1e-9, equal_nan=True):
+                out.fail("subset-on-fewer-rows", f"{s!r}: subset {order} on rows {rows}: {M3.tolist()} vs parent cells {M[rows][:, exp_idx].tolist()}", ordering=ordering)
+        except Exception as e:
+            out.fail("subset-on-fewer-rows", f"{s!r}: subset {order} on rows {rows}: {type(e).__name__}: {str(e)[:150]}", ordering=ordering)
         if list(spec.get_term_indices(S, ordering="none")) != [j for t in S for j in ti[t]]:
             out.fail("get-term-indices", f"{s!r}: {S}", ordering="none")
         # metadata of the subset is about the subset
